@@ -83,6 +83,11 @@ CHECKS = {
          "canaries, 7z entries with and without streams and skipped member classes are consumed by exhaust / take-k-then-close / abandon / throw consumers; every Python-level file-system event must stay inside the private temp root "
          "(reads also allowed in interpreter/package files), canaries stay intact and never show up in results, the temp root is empty afterwards, skipped classes yield nothing, and results do not change with host directory content.",
          "Audit hooks observe Python-level I/O only; the worker is warmed up before monitoring; names are drawn from a fixed hostile vocabulary plus shrinker variations.", "DESIGN.md §4 C09"),
+ "C16": ("exploration", "model-based Hypothesis generation of MIME messages serialised by the stdlib email package (hand-written address headers), as .eml and inside mboxes; field-by-field oracle + eml/mbox differential",
+         "Messages over non-ASCII subjects and display names (RFC 2047), quoted commas, folded headers, seven charsets x four transfer encodings, single/alternative/html-only/related structures and 0..3 attachments (generated "
+         "documents and blobs, RFC 2231 names) are extracted as .eml and as members of LF/CRLF mboxes with '>From ' escapes and near-separator lines; subject, addresses, instant, message id, bodies and attachment bytes must equal "
+         "the model, mbox results must be one per message in order and equal the .eml results, and supported attachments must extract like the attached bytes alone.",
+         "The stdlib serialiser is the reference writer (its address-list refolding bug is avoided by writing those headers by hand); '>From ' un-escaping and inline related images are unspecified.", "DESIGN.md §4 C16"),
 }
 NOT_YET = {}
 
